@@ -217,7 +217,7 @@ func (x *Exec) encodeRunes(st *State, runes []Value) []Outcome {
 	}
 	outs := make([]Outcome, len(cur))
 	for i, p := range cur {
-		outs[i] = Outcome{Cond: p.cond, Val: Str{p.b}}
+		outs[i] = Outcome{Cond: p.cond, Val: Str{B: p.b}}
 	}
 	return outs
 }
